@@ -96,7 +96,12 @@ class TripWireTrigger {
     }
     explicit TripWireTrigger(TriplineType line): lineTrigger(std::move(line)) {}
     /** destructor*/
-    ~TripWireTrigger() { lineTrigger->store(true, std::memory_order_release); }
+    ~TripWireTrigger()
+    {
+        if (lineTrigger) {
+            lineTrigger->store(true, std::memory_order_release);
+        }
+    }
     /** move constructor*/
     TripWireTrigger(TripWireTrigger&& twt) = default;
     /** deleted copy constructor*/
